@@ -96,7 +96,7 @@ func (p *Prog) ourField(f *types.Var) bool {
 	if f.Pkg() == nil {
 		return false
 	}
-	if !strings.HasPrefix(f.Pkg().Path(), modPath) || f.Pkg().Path() == pkgPaths["rafttest"] {
+	if !isOurPath(f.Pkg().Path()) || f.Pkg().Path() == pkgPaths["rafttest"] {
 		return false
 	}
 	// protobuf runtime internals of generated messages
@@ -253,7 +253,7 @@ func (p *Prog) computeEffects() {
 			continue
 		}
 		pk := fnPkg(fn)
-		ours := pk != nil && strings.HasPrefix(pk.Path(), modPath)
+		ours := pk != nil && isOurPath(pk.Path())
 		for _, b := range fn.Blocks {
 			for _, in := range b.Instrs {
 				if ours && pk.Path() == pkgPaths["raftpb"] {
@@ -316,7 +316,7 @@ func (p *Prog) computeEffects() {
 			continue
 		}
 		pk := fnPkg(fn)
-		if pk == nil || !strings.HasPrefix(pk.Path(), modPath) {
+		if pk == nil || !isOurPath(pk.Path()) {
 			continue
 		}
 		for _, l := range p.relevantReads(fn) {
@@ -403,7 +403,7 @@ func (p *Prog) buildParamCalls() {
 			continue
 		}
 		pk := fnPkg(fn)
-		if pk == nil || !strings.HasPrefix(pk.Path(), modPath) {
+		if pk == nil || !isOurPath(pk.Path()) {
 			continue
 		}
 		for _, b := range fn.Blocks {
@@ -741,7 +741,7 @@ func (p *Prog) CallSites(fn *ssa.Function) []*callgraph.Edge {
 			continue // pointer-receiver wrappers, bound-method thunks
 		}
 		cp := fnPkg(e.Caller.Func)
-		if cp == nil || !strings.HasPrefix(cp.Path(), modPath) || cp.Path() == pkgPaths["rafttest"] {
+		if cp == nil || !isOurPath(cp.Path()) || cp.Path() == pkgPaths["rafttest"] {
 			continue
 		}
 		out = append(out, e)
